@@ -138,7 +138,7 @@ reg = {
                                 "offset_of_first_value", "push", "push_sep", "insert_helper", "as_bytes", "fixed_width"]},
         # insert beside a single huge pair: leaf order, checksums, separator bounds
         "bigpair": {"overlay": "units/bigpair.ovl", "canaries": ["canary_bigpair"],
-                    "helpers": ["len", "into_owned", "branch_separator", "key", "new", "entry", "last_entry", "offset_of_first_value", "get_page_number", "memory", "push", "build", "fixed_width"]},
+                    "helpers": ["len", "to_vec", "to_owned", "into_owned", "branch_separator", "key", "new", "entry", "last_entry", "offset_of_first_value", "get_page_number", "memory", "push", "build", "fixed_width"]},
         "types_sep": {"overlay": "units/types_sep.ovl", "canaries": ["canary_types_sep"], "helpers": ["common_prefix_len"]},
         # the page-level checksum walk over an abstract page store
         "merkle": {"overlay": "units/merkle.ovl", "canaries": ["canary_merkle"],
